@@ -56,6 +56,8 @@ pub struct VGen<'r> {
     methods: Vec<Vec<(String, G, Vec<G>)>>,
     /// function templates `template<typename T> T name(T a, T b[, bool c])`: (name, takes a bool selector)
     templates: Vec<(String, bool)>,
+    /// the namespace definitions are currently written into (references always use the qualified name)
+    ns: Option<String>,
 }
 
 const KINDS: [T; 4] = [T::Int, T::Uint, T::Float, T::Bool];
@@ -73,7 +75,15 @@ fn rank(t: T) -> u32 {
 
 impl<'r> VGen<'r> {
     pub fn new(rng: &'r mut Rng, opts: VGenOpts) -> Self {
-        VGen { rng, opts, counter: 0, structs: Vec::new(), has_enum: false, globals: Vec::new(), funcs: Vec::new(), methods: Vec::new(), templates: Vec::new() }
+        VGen { rng, opts, counter: 0, structs: Vec::new(), has_enum: false, globals: Vec::new(), funcs: Vec::new(), methods: Vec::new(), templates: Vec::new(), ns: None }
+    }
+
+    /// the name by which a definition made now is referred to
+    fn q(&self, short: &str) -> String {
+        match &self.ns {
+            Some(n) => format!("{}::{}", n, short),
+            None => short.to_string(),
+        }
     }
 
     fn fresh(&mut self, p: &str) -> String {
@@ -885,7 +895,8 @@ impl<'r> VGen<'r> {
             out.push_str(&format!("    return {};\n", e));
         }
         out.push_str("}\n\n");
-        self.funcs.push(FnSig { name, ret, params, overloaded });
+        let qualified = if overloaded { name } else { self.q(&name) };
+        self.funcs.push(FnSig { name: qualified, ret, params, overloaded });
     }
 
     /// default argument: a literal of the parameter's kind, sometimes of another kind / shape (converted at the call),
@@ -983,6 +994,11 @@ impl<'r> VGen<'r> {
             self.has_enum = true;
             out.push_str("enum E0 { EA, EB = 5, EC };\n");
         }
+        if self.opts.structs && self.rng.chance(1, 3) {
+            let n = self.fresh("NS");
+            out.push_str(&format!("namespace {}\n{{\n", n));
+            self.ns = Some(n);
+        }
         if self.opts.structs {
             let ns = self.rng.below(3);
             for _ in 0..ns {
@@ -996,7 +1012,8 @@ impl<'r> VGen<'r> {
                     text.push_str(&format!("    {};\n", self.decl(&g, &mn)));
                     members.push((mn, g));
                 }
-                self.structs.push((name, members.clone()));
+                let qualified = self.q(&name);
+                self.structs.push((qualified, members.clone()));
                 // methods: bodies see the data members as variables; a later method may call an earlier one
                 let mut sigs: Vec<(String, G, Vec<G>)> = Vec::new();
                 let nmeth = self.rng.below(3);
@@ -1045,7 +1062,8 @@ impl<'r> VGen<'r> {
                     let body = *self.rng.pick(&["return a * a - b;", "T r = a + b;\n    r += a;\n    return r;", "return -a + b;"]);
                     out.push_str(&format!("template<typename T> T {}(T a, T b)\n{{\n    {}\n}}\n", name, body));
                 }
-                self.templates.push((name, sel));
+                let qualified = self.q(&name);
+                self.templates.push((qualified, sel));
             }
         }
         let ng = self.rng.below(4);
@@ -1054,7 +1072,16 @@ impl<'r> VGen<'r> {
             let n = self.fresh("g");
             let is_const = self.rng.chance(1, 3);
             out.push_str(&format!("static {}{} = {};\n", if is_const { "const " } else { "" }, self.decl(&g, &n), self.const_init(&g)));
-            self.globals.push(VarInfo { name: n, ty: g, assignable: !is_const });
+            let qualified = self.q(&n);
+            self.globals.push(VarInfo { name: qualified, ty: g, assignable: !is_const });
+        }
+        if self.ns.is_some() {
+            // sometimes a helper function lives in the namespace as well
+            if self.rng.chance(1, 2) {
+                self.function(&mut out, None);
+            }
+            out.push_str("}\n");
+            self.ns = None;
         }
         out.push('\n');
         // an overload set now and then
